@@ -58,10 +58,12 @@ def check_param_families(db, res) -> int:
 def _extra(db, res, tier, scope):
   n = r_clamp.check_clamp_last(res, scope, clamp_tables.CLAMP_LAST, "C03")
   res.floor("clamp-last obligations", n, 4)
+  nr = r_clamp.check_returns_clamped(res, db.sm, clamp_tables.RETURNS_CLAMPED, "C03")
+  res.floor("returns of next_act examined (R-CLAMP.3)", nr, 2)
   nf = check_param_families(db, res)
   res.floor("gain/bias branch family obligations", nf, 6)
 
 
 def run(db, res, tier):
   family_a.run_family(db, res, tier, "C03", extra=_extra)
-  res.rule_text += "; R-CLAMP: qfrc_actuator (jnt_actfrcrange) and the advanced activation (actuator_actrange) are stored as the clamp result itself - nothing is added after the clamp; R-FAMILY: the GainType.FIXED/AFFINE/MUSCLE branches of the actuator force law and of its velocity derivative read no biasprm, the BiasType.AFFINE/MUSCLE branches read no gainprm"
+  res.rule_text += "; R-CLAMP.3: every return of support.next_act that is not on the DynType.USER path carries the clamp to actuator_actrange; R-CLAMP: qfrc_actuator (jnt_actfrcrange) and the advanced activation (actuator_actrange) are stored as the clamp result itself - nothing is added after the clamp; R-FAMILY: the GainType.FIXED/AFFINE/MUSCLE branches of the actuator force law and of its velocity derivative read no biasprm, the BiasType.AFFINE/MUSCLE branches read no gainprm"
